@@ -545,11 +545,25 @@ static void parseEmit(void *inFrame, lltd_iface_state *st, void *iface_ctx) {
     lltd_emit_upper_header_t *emitHeader =
         (lltd_emit_upper_header_t *)((uint8_t *)lltdHeader + sizeof(*lltdHeader));
 
+    size_t mtu = 0;
+    if (lltd_port_get_mtu(iface_ctx, &mtu) != 0 || mtu < sizeof(*lltdHeader) + sizeof(*emitHeader)) {
+        return;
+    }
+    size_t maxDescs = (mtu - sizeof(*lltdHeader) - sizeof(*emitHeader)) / sizeof(emitee_descs);
+
     st->mapper_seq = lltd_ntohs(lltdHeader->seqNumber);
     set_active_mapper(st, &lltdHeader->realSource, &lltdHeader->frameHeader.source);
 
     int numDescs = (int)lltd_ntohs(emitHeader->numDescs);
     uint16_t offsetEmitee = 0;
+
+    /*
+     * The core is handed a bare pointer into an MTU-sized receive buffer, so
+     * the declared count must be bounded by what such a buffer can carry.
+     */
+    if ((size_t)numDescs > maxDescs) {
+        numDescs = (int)maxDescs;
+    }
 
     for (int i = 0; i < numDescs; i++) {
         bool ack = (i == numDescs - 1);
